@@ -51,12 +51,12 @@ PRIVATE_BOUNDED = K('locale_private_leaf', 'private_try_from_iter_bounded',
 BRIDGE_ALL = r'::x_\w+$'
 LID_LEMMAS = r'::(lemma_(sorted_dedup_variants|var_run\w*|classes_disjoint|lex_\w+|adjacent_\w+|toks_skip|split_nonempty|first_sep_bounds)|first_sep_by|split_by|var_run|lex_le)$'
 LID_PARSER = [V('langid', r'::parser::parse_language_identifier_from_iter$'), V('langid', r'::parser::parse_language_identifier$'),
-              V('langid', r'::LanguageIdentifier::(from_bytes|try_from_iter)$'), V('langid', r'::LanguageIdentifierError::from$'),
+              V('langid', r'::LanguageIdentifier::(from_bytes|try_from_iter|from_str)$'), V('langid', r'::LanguageIdentifierError::from$'),
               V('langid', LID_LEMMAS)]
 LOC_LEMMAS = r'::vspec::(lemma_\w+|ext_parse|kv_fold|last_key|tf_end|u_end|u_first_key)$'
 LOC_PARSER = [V('locale', r'::(UnicodeExtensionList|TransformExtensionList)::try_from_iter$'),
               V('locale', r'::ExtensionsMap::(try_from_iter|from_bytes)$'),
-              V('locale', r'::parser::parse_locale$'), V('locale', r'::Locale::from_bytes$'),
+              V('locale', r'::parser::parse_locale$'), V('locale', r'::Locale::(from_bytes|from_str)$'), V('locale', r'::ExtensionsMap::from_str$'),
               V('locale', r'::(LocaleError|ParserError)::from$'), V('locale', LOC_LEMMAS)]
 
 PROPS = {
@@ -246,7 +246,7 @@ PROPS.update({
 
 PROPS.update({
     'C19': {
-        'kani': [K('langid_serde', h) for h in ['serialize_is_to_string', 'deserialize_str_is_parse', 'deserialize_non_string_is_err']] +
+        'kani': [K('langid_serde', h) for h in ['serialize_is_to_string', 'deserialize_str_is_parse', 'deserialize_non_string_is_err', 'from_str_is_from_bytes']] +
                 [K('langid_leaf', h) for h in LEAF_LID],
         'verus': [V('bridge', BRIDGE_LID)] + LID_PARSER + LID_DISPLAY,
         'standin': ['lid'],
@@ -274,7 +274,8 @@ PROPS.update({
                 [K('langid_match@' + FEATS_L, h) for h in ['match_language', 'match_fields_no_variants', 'as_ref_is_identity']] +
                 [K('langid_match@' + FEATS_L, 'match_variants_only', bounded='variant lists of length <= 2 per side')] +
                 LOCALE_LEAF + [K(k['unit'] + '@likelysubtags', k['harness']) for k in LOCALE_LEAF] +
-                [K('langid_dir', 'dir_is_model'), K('langid_dir_likely', 'dir_is_model')],
+                [K('langid_dir', 'dir_is_model'), K('langid_dir_likely', 'dir_is_model'), K('langid_serde', 'from_str_is_from_bytes'),
+                 K('langid_serde', 'deserialize_str_is_parse')],
         'verus': [V('bridge', BRIDGE_ALL),
                   V('langid', r'^unic_langid_impl::(?!likelysubtags)'), V('langid', r'^unic_langid_impl::(?!likelysubtags)', features=('likelysubtags',)),
                   V('locale', r'^unic_locale_impl::'), V('locale', r'^unic_locale_impl::', features=('likelysubtags',))],
